@@ -11,7 +11,8 @@ import (
 // TestVerifC16 — connection IDs: limits honoured both ways, retirements reported, routing
 // clean. See c16_mgr_test.go (peer-issued IDs), c16_gen_test.go (own IDs),
 // c16_spec_test.go (limits advertised by the shipped uQUIC specs) and c16_tpt_test.go
-// (both objects wired to the real Transport's packetHandlerMap inside a synctest bubble)
+// (both objects wired to the real Transport's packetHandlerMap inside a synctest bubble;
+// part transport-paths: a client-side connection registered on two real Transports)
 // and c16_coal_test.go (coalesced packets with differing DCIDs fed through the real
 // Transport into a real Conn).
 func TestVerifC16(t *testing.T) {
@@ -25,7 +26,8 @@ func TestVerifC16(t *testing.T) {
 		c16GenPart("gen-server", c16GenCfg{server: true}),
 		c16GenPart("gen-client", c16GenCfg{}),
 		c16GenPart("gen-zerolen", c16GenCfg{server: true, zero: true}),
-		c16TptPart("transport", t),
+		c16TptPart("transport", t, c16WorldCfg{}),
+		c16TptPart("transport-paths", t, c16WorldCfg{paths: true}),
 		c16CoalPart("coalesced"),
 	}, func(msg string) { t.Fatal(msg) })
 }
@@ -38,7 +40,7 @@ var c16Weights = []struct {
 	w    float64
 }{
 	{"mgr", 3}, {"mgr-wide", 2}, {"mgr-deep", 2}, {"mgr-zerolen", 0.1}, {"mgr-uquic", 3.5}, {"spec-limits", 0.1},
-	{"gen-server", 1.5}, {"gen-client", 1.2}, {"gen-zerolen", 0.1}, {"transport", 2.5}, {"coalesced", 1.5},
+	{"gen-server", 1.5}, {"gen-client", 1.2}, {"gen-zerolen", 0.1}, {"transport", 2.5}, {"transport-paths", 2.5}, {"coalesced", 1.5},
 }
 
 func c16Slice(e explore.Env, name string) explore.Env {
